@@ -82,6 +82,8 @@ type Run struct {
 	Start    time.Time
 	Deadline time.Time
 	ReplayID string // when set only the case with this ID is executed
+	// SerialOnly makes Parallel run one case at a time (bodies that use process-global state such as the virtual clock).
+	SerialOnly bool
 
 	mu          sync.Mutex
 	evals       int64
@@ -220,6 +222,9 @@ func (r *Run) extraCountViolation() {
 
 // Parallel runs fn(i) for i in [0,n) on all cores; stops handing out work when the budget expires.
 func (r *Run) Parallel(n int, fn func(i int)) (done int) {
+	if r.SerialOnly {
+		return r.Serial(n, fn)
+	}
 	var next int64 = -1
 	var completed int64
 	var wg sync.WaitGroup
